@@ -212,10 +212,12 @@ EXPORT int snwprintf_s(wchar_t *restrict dest, rsize_t dmax,
             va_end(ap2);
         } else {
             wchar_t *tmp = (wchar_t *)malloc(dmax * sizeof(wchar_t));
-            va_start(ap2, fmt);
-            ret = vswprintf(tmp, dmax, fmt, ap2);
-            va_end(ap2);
-            free(tmp);
+            if (tmp) { /* without scratch space the error stays an error */
+                va_start(ap2, fmt);
+                ret = vswprintf(tmp, dmax, fmt, ap2);
+                va_end(ap2);
+                free(tmp);
+            }
         }
         /* this will bump ret to > 0 */
     }
